@@ -256,67 +256,100 @@ func c18Run(c *fw.Ctx) {
 		depth = 7
 	}
 	types := c18Types()
-	// work units: (type, first command index); each worker owns the units with index % N == shard
-	unit := 0
+	// work units: (type, first command index); each worker owns the units with
+	// index % N == shard. All units advance one depth level at a time, so that a
+	// run cut by the deadline has still covered every unit up to a common depth
+	// (level_<d>_units_done == units in the evidence counters).
+	var units []*c18Unit
+	n := 0
 	for _, t := range types {
 		for first := range t.Cmds {
-			mine := unit%c.N == c.Shard
-			unit++
-			if !mine {
+			mine := n%c.N == c.Shard
+			n++
+			if mine {
+				units = append(units, &c18Unit{t: t, first: first, seen: map[string]bool{}})
+			}
+		}
+	}
+	if c.Shard == 0 {
+		c.Count("units", int64(n))
+	}
+	for d := 1; d <= depth; d++ {
+		for _, u := range units {
+			if u.closed {
+				c.Count(fmt.Sprintf("level_%d_units_done", d), 1)
 				continue
 			}
-			c18Search(c, t, first, depth)
+			if !u.step(c, d) {
+				c.Cap("level %d (programs of %d commands) was not completed for every unit before the internal deadline; all units are complete up to level %d", d, d, d-1)
+				return
+			}
+			c.Count(fmt.Sprintf("level_%d_units_done", d), 1)
+		}
+	}
+	for _, u := range units {
+		if u.closed {
+			c.Count("closed_units", 1)
+		} else {
+			c.Count("depth_bounded_units", 1)
 		}
 	}
 }
 
-func c18Search(c *fw.Ctx, t c18Type, first int, depth int) {
-	type node struct{ prog [][]string }
-	seen := map[string]bool{}
-	frontier := []node{}
-	visit := func(prog [][]string) {
-		c.Eval()
-		c.Count("transitions", 1)
-		clause, detail, st, readout, crashed := c18Step(t, prog)
-		if clause != "" {
-			c.Violation("C18|"+t.Name+"|"+clause, detail+" program="+fmt.Sprint(prog), c18Case{Type: t.Name, Program: prog})
-			return // violating states are terminal
-		}
-		if crashed {
-			return
-		}
-		key := st.Canon() + "#" + readout
-		c.DistinctAdd("states", t.Name+"|"+key)
-		if seen[key] {
-			c.Count("merges", 1)
-			return
-		}
-		seen[key] = true
-		c.Nontrivial()
-		if c.WantSample() && len(prog) >= 3 {
-			c.Sample(map[string]any{"type": t.Name, "program": prog, "model_state": st.Canon()})
-		}
-		frontier = append(frontier, node{prog})
+// c18Unit is the breadth-first search from one first command.
+type c18Unit struct {
+	t        c18Type
+	first    int
+	seen     map[string]bool
+	frontier [][][]string
+	closed   bool // no new state at the last level: the reachable state space is exhausted
+}
+
+func (u *c18Unit) visit(c *fw.Ctx, prog [][]string, next *[][][]string) {
+	c.Eval()
+	c.Count("transitions", 1)
+	clause, detail, st, readout, crashed := c18Step(u.t, prog)
+	if clause != "" {
+		c.Violation("C18|"+u.t.Name+"|"+clause, detail+" program="+fmt.Sprint(prog), c18Case{Type: u.t.Name, Program: prog})
+		return // violating states are terminal
 	}
-	visit([][]string{t.Cmds[first]})
-	for d := 1; d < depth; d++ {
-		cur := frontier
-		frontier = nil
-		for _, n := range cur {
+	if crashed {
+		return
+	}
+	key := st.Canon() + "#" + readout
+	c.DistinctAdd("states", u.t.Name+"|"+key)
+	if u.seen[key] {
+		c.Count("merges", 1)
+		return
+	}
+	u.seen[key] = true
+	c.Nontrivial()
+	if c.WantSample() && len(prog) >= 3 {
+		c.Sample(map[string]any{"type": u.t.Name, "program": prog, "model_state": st.Canon()})
+	}
+	*next = append(*next, prog)
+}
+
+// step explores the programs of length d of this unit; false = deadline hit.
+func (u *c18Unit) step(c *fw.Ctx, d int) bool {
+	var next [][][]string
+	if d == 1 {
+		u.visit(c, [][]string{u.t.Cmds[u.first]}, &next)
+	} else {
+		for _, prog := range u.frontier {
 			if c.Expired() {
-				c.Cap("search of type %s stopped at depth %d by the internal deadline", t.Name, d)
-				return
+				return false
 			}
-			for _, cmd := range t.Cmds {
-				visit(append(append([][]string{}, n.prog...), cmd))
+			for _, cmd := range u.t.Cmds {
+				u.visit(c, append(append([][]string{}, prog...), cmd), &next)
 			}
-		}
-		if len(frontier) == 0 {
-			c.Count("closed_units", 1)
-			return
 		}
 	}
-	c.Count("depth_bounded_units", 1)
+	u.frontier = next
+	if len(next) == 0 {
+		u.closed = true
+	}
+	return true
 }
 
 func c18Replay(raw json.RawMessage) (string, bool, error) {
@@ -337,7 +370,7 @@ func init() {
 	fw.Register(&fw.Prop{
 		ID:    "C18",
 		Level: "model_checking",
-		Rule:  "explicit-state breadth-first search per data type (string, hash, list, set, sorted set) over programs of concrete commands on keys {k1,k2}, fields/members {a,b}, values {x, empty, y CRLF z, 5}, scores {1,2}, increments ±1, indices {0,-1,1}, pop counts {none,2}, plus DEL/EXISTS/RENAME/RENAMENX (onto absent, existing and identical keys)/TYPE/KEYS for every type. A state is (Redis-model state, full read-out of the example server); each successor is obtained by replaying the program on a fresh real example server plus one command; states are de-duplicated per (type, first command) unit; search to depth 4 (thorough 7, or closure where it closes). Every reply and the read-out are compared with the model under the conventions of DESIGN.md appendix C.",
+		Rule:  "explicit-state breadth-first search per data type (string, hash, list, set, sorted set) over programs of concrete commands on keys {k1,k2}, fields/members {a,b}, values {x, empty, y CRLF z, 5}, scores {1,2}, increments ±1, indices {0,-1,1}, pop counts {none,2}, sorted-set reads by index (full and partial ranges), by score, with REV / BYSCORE / LIMIT / WITHSCORES and the ZREV* forms, ZADD with NX/XX/GT/LT/CH/INCR, plus DEL/EXISTS/RENAME/RENAMENX (onto absent, existing and identical keys)/TYPE/KEYS for every type. A state is (Redis-model state, full read-out of the example server); each successor is obtained by replaying the program on a fresh real example server plus one command; states are de-duplicated per (type, first command) unit; search to depth 4 (thorough 7, or closure where it closes); all units advance level by level, so a run cut by the deadline is still complete up to the last level whose level_<d>_units_done counter equals units. Range replies are judged up to the order among members of equal score. Every reply and the read-out are compared with the model under the conventions of DESIGN.md appendix C.",
 		Assumptions: []string{
 			"each key is used with one data type, no expiry",
 			"replies whose order Redis leaves unspecified are compared as multisets; members of equal score as sets; $-1 and *-1 both count as 'nothing'",
